@@ -1,4 +1,7 @@
+#[cfg(not(prqlc_verif))]
 use std::collections::HashMap;
+#[cfg(prqlc_verif)]
+use crate::verif_hash::HashMap;
 
 use enum_as_inner::EnumAsInner;
 use schemars::JsonSchema;
